@@ -69,11 +69,212 @@ type lockAnalysis struct {
 	problems []string // pairing problems (lock leaked / released when not held after seeding)
 	probPos  []ssa.Instruction
 	defers   []*ssa.Defer
+	// inContext: fn is a function literal that its parent invokes at exactly one place (called or
+	// deferred on the spot); requires is then the parent's lockset at that place, and what the literal
+	// leaves held or released is the parent's business (checked at the parent's returns)
+	inContext bool
+}
+
+// inlineLiteralOf returns the function literal that ci invokes directly when that literal is used
+// nowhere else (`defer func() { ... }()`, `func() { ... }()`): such a literal runs in its parent's
+// locking context.
+func inlineLiteralOf(ci ssa.CallInstruction) *ssa.Function {
+	com := ci.Common()
+	if com.IsInvoke() {
+		return nil
+	}
+	if _, isGo := ci.(*ssa.Go); isGo {
+		return nil
+	}
+	switch v := com.Value.(type) {
+	case *ssa.MakeClosure:
+		g, _ := v.Fn.(*ssa.Function)
+		if g == nil || g.Blocks == nil || g.Parent() != ci.Parent() || v.Referrers() == nil {
+			return nil
+		}
+		for _, u := range *v.Referrers() {
+			if u == ci.(ssa.Instruction) {
+				continue
+			}
+			if _, isDbg := u.(*ssa.DebugRef); isDbg {
+				continue
+			}
+			return nil
+		}
+		return g
+	case *ssa.Function:
+		if v.Parent() == nil || v.Parent() != ci.Parent() || v.Blocks == nil {
+			return nil
+		}
+		uses := 0
+		instrsOf(ci.Parent(), func(in ssa.Instruction) {
+			for _, op := range in.Operands(nil) {
+				if op != nil && *op == ssa.Value(v) {
+					uses++
+				}
+			}
+		})
+		if uses == 1 {
+			return v
+		}
+	}
+	return nil
+}
+
+// inlineSiteOf finds the one instruction of g's parent that invokes the literal g in place.
+func inlineSiteOf(g *ssa.Function) ssa.CallInstruction {
+	if g == nil || g.Parent() == nil {
+		return nil
+	}
+	var site ssa.CallInstruction
+	instrsOf(g.Parent(), func(in ssa.Instruction) {
+		if ci, ok := in.(ssa.CallInstruction); ok && site == nil && inlineLiteralOf(ci) == g {
+			site = ci
+		}
+	})
+	return site
+}
+
+// literalExit runs the literal g from the lockset entry and returns the lockset at its returns.
+func (e *lockEngine) literalExit(g *ssa.Function, entry lockSet, depth int) lockSet {
+	if depth > 4 {
+		return entry
+	}
+	sub := &lockAnalysis{fn: g, requires: entry.clone(), inContext: true}
+	instrsOf(g, func(in ssa.Instruction) {
+		if d, ok := in.(*ssa.Defer); ok {
+			sub.defers = append(sub.defers, d)
+		}
+	})
+	ins := sub.in
+	if e.mayMode {
+		ins = e.flowMay(sub)
+	} else {
+		e.flow(sub, false)
+		ins = sub.in
+	}
+	var exit lockSet
+	for _, b := range g.Blocks {
+		st, ok := ins[b]
+		if !ok || len(b.Instrs) == 0 {
+			continue
+		}
+		if _, isRet := b.Instrs[len(b.Instrs)-1].(*ssa.Return); !isRet {
+			continue
+		}
+		st = st.clone()
+		for _, in := range b.Instrs {
+			e.step(sub, st, in, false)
+		}
+		if exit == nil {
+			exit = st
+		} else if e.mayMode {
+			for k, v := range st {
+				if cv, has := exit[k]; !has || (cv == 'R' && v == 'W') {
+					exit[k] = v
+				}
+			}
+		} else {
+			exit = meetLocks(exit, st)
+		}
+	}
+	if exit == nil {
+		return entry
+	}
+	return exit
+}
+
+func replaceLocks(dst, src lockSet) {
+	for k := range dst {
+		delete(dst, k)
+	}
+	for k, v := range src {
+		dst[k] = v
+	}
 }
 
 type lockEngine struct {
 	p    *Program
 	memo map[*ssa.Function]*lockAnalysis
+	// mayMode: step is being driven by the may-analysis (a literal's effect is then the union over its
+	// returns, not the intersection)
+	mayMode  bool
+	allLoops map[*ssa.Function][]*allLoop
+}
+
+// allLoop: a loop whose only effect on locks is one operation on the mutex of the element it visits
+// (`for _, b := range r.subscopes { b.mu.RLock() }`): "lock (or unlock) every element". Inside the
+// loop the operation is not applied; it is applied once, to the class path `r.subscopes[].mu`, on the
+// edges that leave the loop (for an empty collection nothing is locked - and nothing of it is touched).
+type allLoop struct {
+	loop *loopInfo
+	op   *lockOp
+}
+
+func (e *lockEngine) allLoopsOf(fn *ssa.Function) []*allLoop {
+	if e.allLoops == nil {
+		e.allLoops = map[*ssa.Function][]*allLoop{}
+	}
+	if r, ok := e.allLoops[fn]; ok {
+		return r
+	}
+	var out []*allLoop
+	for _, l := range loopsOf(fn) {
+		var ops []*lockOp
+		other := false
+		for _, b := range fn.Blocks {
+			if !l.Blocks[b] {
+				continue
+			}
+			for _, in := range b.Instrs {
+				if op := lockOpOf(in); op != nil {
+					if _, isDefer := in.(*ssa.Defer); isDefer {
+						other = true
+					}
+					ops = append(ops, op)
+					continue
+				}
+				switch x := in.(type) {
+				case *ssa.Call:
+					if _, isB := x.Call.Value.(*ssa.Builtin); !isB {
+						other = true
+					}
+				case *ssa.Go, *ssa.Defer, *ssa.Store, *ssa.MapUpdate, *ssa.Send:
+					other = true
+				}
+			}
+		}
+		if other || len(ops) != 1 || !strings.Contains(ops[0].Path, "[]") {
+			continue
+		}
+		out = append(out, &allLoop{loop: l, op: ops[0]})
+	}
+	e.allLoops[fn] = out
+	return out
+}
+
+// inAllLoop: in is the single lock operation of a lock-every-element loop.
+func (e *lockEngine) inAllLoop(in ssa.Instruction) bool {
+	for _, al := range e.allLoopsOf(in.Parent()) {
+		if al.op.Call == asCall(in) && al.op.Call != nil {
+			return true
+		}
+	}
+	return false
+}
+
+// leaveAllLoops applies the operation of every lock-every-element loop that the edge b -> succ leaves.
+func (e *lockEngine) leaveAllLoops(b, succ *ssa.BasicBlock, s lockSet) (lockSet, string) {
+	pr := ""
+	for _, al := range e.allLoopsOf(b.Parent()) {
+		if al.loop.Blocks[b] && !al.loop.Blocks[succ] {
+			s = s.clone()
+			if p := applyLockOp(s, al.op); p != "" {
+				pr = p + " (by the loop over every element)"
+			}
+		}
+	}
+	return s, pr
 }
 
 func (p *Program) newLockEngine() *lockEngine {
@@ -120,6 +321,8 @@ func (e *lockEngine) step(la *lockAnalysis, s lockSet, in ssa.Instruction, recor
 					la.problems = append(la.problems, pr+" (deferred)")
 					la.probPos = append(la.probPos, d)
 				}
+			} else if lit := inlineLiteralOf(d); lit != nil {
+				replaceLocks(s, e.literalExit(lit, s, 0))
 			} else if g := staticCallee(d); g != nil && e.p.inModule(g) && g.Blocks != nil {
 				e.applyCallee(la, s, d, g, record)
 			}
@@ -127,10 +330,17 @@ func (e *lockEngine) step(la *lockAnalysis, s lockSet, in ssa.Instruction, recor
 		return
 	case *ssa.Call:
 		if op := lockOpOf(x); op != nil {
+			if e.inAllLoop(x) {
+				return // applied on the loop's exit edges
+			}
 			if pr := applyLockOp(s, op); pr != "" && record {
 				la.problems = append(la.problems, pr)
 				la.probPos = append(la.probPos, in)
 			}
+			return
+		}
+		if lit := inlineLiteralOf(x); lit != nil {
+			replaceLocks(s, e.literalExit(lit, s, 0))
 			return
 		}
 		if g := staticCallee(x); g != nil && e.p.inModule(g) && g.Blocks != nil && g != la.fn {
@@ -182,6 +392,50 @@ func (e *lockEngine) analyze(fn *ssa.Function) *lockAnalysis {
 			la.defers = append(la.defers, d)
 		}
 	})
+	if site := inlineSiteOf(fn); site != nil {
+		// a literal invoked in place: it starts from its parent's lockset at that place
+		la.inContext = true
+		pa := e.analyze(fn.Parent())
+		if pa != nil && pa.in != nil {
+			var entry lockSet
+			if d, isDefer := site.(*ssa.Defer); isDefer {
+				// at every RunDefers the defer reaches: the state after the defers registered later have run
+				instrsOf(fn.Parent(), func(in ssa.Instruction) {
+					rd, isRD := in.(*ssa.RunDefers)
+					if !isRD || !dominates(d, rd) {
+						return
+					}
+					st := e.heldAt(rd)
+					for i := len(pa.defers) - 1; i >= 0; i-- {
+						dd := pa.defers[i]
+						if dd == d {
+							break
+						}
+						if !dominates(dd, rd) {
+							continue
+						}
+						if op := lockOpOf(dd); op != nil {
+							applyLockOp(st, op)
+						} else if lit := inlineLiteralOf(dd); lit != nil {
+							replaceLocks(st, e.literalExit(lit, st, 0))
+						}
+					}
+					if entry == nil {
+						entry = st
+					} else {
+						entry = meetLocks(entry, st)
+					}
+				})
+			} else {
+				entry = e.heldAt(site.(ssa.Instruction))
+			}
+			if entry != nil {
+				la.requires = entry
+			}
+		}
+		e.flow(la, true)
+		return la
+	}
 	// pass 1: infer entry requirements = locks released while not held starting from {}
 	for iter := 0; iter < 3; iter++ {
 		changed := false
@@ -260,6 +514,7 @@ func (e *lockEngine) flow(la *lockAnalysis, record bool) {
 		sOut := s
 		for si, succ := range b.Succs {
 			s := tryLockEdge(b, si, sOut)
+			s, _ = e.leaveAllLoops(b, succ, s)
 			if cur, ok := la.in[succ]; ok {
 				m := meetLocks(cur, s)
 				if !sameLocks(m, cur) {
@@ -285,8 +540,14 @@ func (e *lockEngine) flow(la *lockAnalysis, record bool) {
 		sm := may[b].clone()
 		for _, in := range b.Instrs {
 			e.step(la, s, in, true)
+			pm := e.mayMode
+			e.mayMode = true
 			e.step(la, sm, in, false)
+			e.mayMode = pm
 			if r, isRet := in.(*ssa.Return); isRet {
+				if la.inContext {
+					continue // judged at the parent's returns
+				}
 				if !sameLocks(s, la.requires) {
 					la.problems = append(la.problems, fmt.Sprintf("at this return the function holds %s but held %s on entry (a lock is leaked or released for good)", s, la.requires))
 					la.probPos = append(la.probPos, r)
@@ -300,6 +561,13 @@ func (e *lockEngine) flow(la *lockAnalysis, record bool) {
 						la.probPos = append(la.probPos, r)
 					}
 				}
+			}
+		}
+		// s is now the block's out-state: the edges that leave a lock-every-element loop
+		for _, succ := range b.Succs {
+			if _, pr := e.leaveAllLoops(b, succ, s); pr != "" && len(b.Instrs) > 0 {
+				la.problems = append(la.problems, pr)
+				la.probPos = append(la.probPos, b.Instrs[len(b.Instrs)-1])
 			}
 		}
 	}
@@ -353,6 +621,9 @@ func tryLockEdge(b *ssa.BasicBlock, idx int, s lockSet) lockSet {
 
 // flowMay: forward may-lockset (union at joins): the locks that are held on at least one path.
 func (e *lockEngine) flowMay(la *lockAnalysis) map[*ssa.BasicBlock]lockSet {
+	prevMode := e.mayMode
+	e.mayMode = true
+	defer func() { e.mayMode = prevMode }()
 	fn := la.fn
 	in := map[*ssa.BasicBlock]lockSet{}
 	if len(fn.Blocks) == 0 {
@@ -370,6 +641,7 @@ func (e *lockEngine) flowMay(la *lockAnalysis) map[*ssa.BasicBlock]lockSet {
 		sOut := s
 		for si, succ := range b.Succs {
 			s := tryLockEdge(b, si, sOut)
+			s, _ = e.leaveAllLoops(b, succ, s)
 			cur, ok := in[succ]
 			if !ok {
 				in[succ] = s.clone()
